@@ -7,7 +7,7 @@ import ast
 from ..affine import Lin
 from ..cfg import cfg_of
 from ..model import AnalysisError, dotted, norm, walk_own
-from .common import assigned_names, def_nodes, find_calls, guards_of, key_of, mentions, order_fact
+from .common import assigned_names, def_nodes, find_calls, guards_of, key_of, mentions, order_fact, startswith_fact
 
 EXPLANATION = (
     "Static decision of the two things that make an incremental parser independent of read boundaries. (R1) carry "
@@ -331,8 +331,7 @@ def rule_r2_receivers(ctx, rid="C02.R2b"):
                 # cut: constant 2 under startswith(CRLF) guard, or the find_double_newline result on J
                 cut_ok = False
                 if isinstance(cut, ast.Constant) and cut.value == 2:
-                    cut_ok = any(pol and isinstance(t, ast.Call) and isinstance(t.func, ast.Attribute) and t.func.attr == "startswith" and dotted(t.func.value) == j
-                                 and t.args and isinstance(t.args[0], ast.Constant) and t.args[0].value == b"\r\n" for (t, pol) in guards_of(g, r))
+                    cut_ok = any(startswith_fact(t, pol, lambda x: dotted(x) == j, b"\r\n") is True for (t, pol) in guards_of(g, r))
                     # "no trailer" is decided by the first two bytes alone: the exit must not also depend on a search of
                     # the rest (the bytes after the final CRLF belong to the next message)
                     searched = {n2.ast.targets[0].id for n2 in g.nodes if n2.kind == "stmt" and isinstance(n2.ast, ast.Assign) and isinstance(n2.ast.targets[0], ast.Name)
@@ -354,9 +353,17 @@ def rule_r2_receivers(ctx, rid="C02.R2b"):
     ctx.r.floor(rid, n_exits, 2, "trailer exits of the chunked receiver")
     # loop variable updates
     upd = [n for n in g.nodes if n.kind == "stmt" and isinstance(n.ast, ast.Assign) and dotted(n.ast.targets[0]) == sname]
+    # `line, sep, rest = s.partition(T)`: rest is s without a prefix (line + T)
+    part_tails = {}
+    for n2 in g.nodes:
+        if n2.kind == "stmt" and isinstance(n2.ast, ast.Assign) and isinstance(n2.ast.value, ast.Call) and isinstance(n2.ast.value.func, ast.Attribute) and n2.ast.value.func.attr == "partition" \
+                and dotted(n2.ast.value.func.value) == sname and isinstance(n2.ast.targets[0], ast.Tuple) and len(n2.ast.targets[0].elts) == 3 and isinstance(n2.ast.targets[0].elts[2], ast.Name):
+            part_tails[n2.ast.targets[0].elts[2].id] = n2
     for n in upd:
         v = n.ast.value
-        if isinstance(v, ast.Subscript) and dotted(v.value) == sname and isinstance(v.slice, ast.Slice) and v.slice.upper is None and v.slice.lower is not None:
+        if isinstance(v, ast.Name) and v.id in part_tails and g.dominates(part_tails[v.id], n):
+            ctx.r.ok(rid, "%s consumes a prefix of the rest (the tail of a partition of it)" % norm(n.ast), f.loc(n.ast))
+        elif isinstance(v, ast.Subscript) and dotted(v.value) == sname and isinstance(v.slice, ast.Slice) and v.slice.upper is None and v.slice.lower is not None:
             ctx.r.ok(rid, "%s consumes a prefix of the rest" % norm(n.ast), f.loc(n.ast))
         elif isinstance(v, ast.Constant) and v.value == b"":
             # preceded by a store of the (joined) rest into a carry field
@@ -488,10 +495,16 @@ def rule_r1(ctx, rid="C02.R1"):
             if n.ast is None or n.kind not in ("stmt", "test"):
                 continue
             for c in ast.walk(n.ast):
-                if isinstance(c, ast.Call) and ((isinstance(c.func, ast.Attribute) and c.func.attr in ("find", "startswith", "index")) or (dotted(c.func) or "").endswith("find_double_newline")):
+                if isinstance(c, ast.Call) and ((isinstance(c.func, ast.Attribute) and c.func.attr in ("find", "startswith", "index", "partition")) or (dotted(c.func) or "").endswith("find_double_newline")):
                     subj = c.func.value if isinstance(c.func, ast.Attribute) else (c.args[0] if c.args else None)
                     if g.dominates(j, n) and dotted(subj) in (jv, inp):
                         searches.append((n, c, dotted(subj)))
+                elif isinstance(c, ast.Compare) and len(c.ops) == 1 and isinstance(c.ops[0], (ast.Eq, ast.NotEq)):
+                    # `joined[:2] == b"\r\n"`: a look at the head of the value, like startswith
+                    for side in (c.left, c.comparators[0]):
+                        if isinstance(side, ast.Subscript) and isinstance(side.slice, ast.Slice) and side.slice.lower is None and dotted(side.value) in (jv, inp) and g.dominates(j, n):
+                            fake = ast.copy_location(ast.Call(func=ast.Attribute(value=side.value, attr="startswith", ctx=ast.Load()), args=[c.comparators[0] if side is c.left else c.left], keywords=[]), c)
+                            searches.append((n, fake, dotted(side.value)))
         bad = [(n, c) for (n, c, subj) in searches if subj != jv]
         # a search may skip a prefix of the joined buffer only if at most len(carry) - (len(terminator) - 1) bytes
         for (n, c, subj) in searches:
@@ -544,7 +557,7 @@ def rule_r1(ctx, rid="C02.R1"):
                 if n.ast is None or n.kind not in ("stmt", "test"):
                     continue
                 for c in ast.walk(n.ast):
-                    if isinstance(c, ast.Call) and isinstance(c.func, ast.Attribute) and c.func.attr in ("find", "startswith", "index") and dotted(c.func.value) in (inp, jv):
+                    if isinstance(c, ast.Call) and isinstance(c.func, ast.Attribute) and c.func.attr in ("find", "startswith", "index", "partition") and dotted(c.func.value) in (inp, jv):
                         nxt = [s2 for (s2, l) in n.succ if l != "exc"]
                         if any(j is s2 or j.id in g.reach(s2, avoid=[x for x in g.nodes if x.kind == "join" and x.label == "loop_head"], follow_exc=False) for s2 in nxt):
                             pre.append((n, c))
@@ -566,6 +579,10 @@ def rule_r1(ctx, rid="C02.R1"):
         if back:
             b = back[0]
             notfound = any(isinstance(t, ast.Compare) and ((isinstance(t.ops[0], ast.Lt) and pol) or (isinstance(t.ops[0], ast.GtE) and not pol)) for (t, pol) in guards_of(g, b))
+            # ... or the separator of a partition of the joined bytes came out empty
+            seps = {m.ast.targets[0].elts[1].id for m in g.nodes if m.kind == "stmt" and isinstance(m.ast, ast.Assign) and isinstance(m.ast.value, ast.Call) and isinstance(m.ast.value.func, ast.Attribute)
+                    and m.ast.value.func.attr == "partition" and dotted(m.ast.value.func.value) == jv and isinstance(m.ast.targets[0], ast.Tuple) and len(m.ast.targets[0].elts) == 3 and isinstance(m.ast.targets[0].elts[1], ast.Name)}
+            notfound = notfound or any((not pol) and isinstance(t, ast.Name) and t.id in seps for (t, pol) in guards_of(g, b))
             if notfound:
                 ctx.r.ok(rid, "%s: unfinished -> joined bytes stored back" % carry, f.loc(b.ast))
             else:
@@ -697,7 +714,13 @@ def rule_r6(ctx):
     c19.rule_r2(ctx, rid="C02.R6")
 
 
-RULES = [rule_r1, rule_r2_header, rule_r2_receivers, rule_r3, rule_r4, rule_r5, rule_r6]
+def rule_r7(ctx):
+    """Shared with C11.R1: whether bytes behind a refused message reach the application must not depend on where the reads were cut - the close decision and received()'s test of it are in one requests_lock region."""
+    from . import c11
+    c11.rule_r1(ctx, rid="C02.R7")
+
+
+RULES = [rule_r1, rule_r2_header, rule_r2_receivers, rule_r3, rule_r4, rule_r5, rule_r6, rule_r7]
 
 from ..selftest import M, T, V  # noqa: E402
 
